@@ -2,14 +2,17 @@
 //! See /verif/DESIGN.md.  Exit codes: 0 = property held on everything explored,
 //! 1 = VIOLATION reported, 2 = harness error.
 
+mod c01;
 mod c19;
 mod data;
 mod env;
 mod fp;
 mod prng;
+mod report;
 mod scen;
 mod scenarios;
 mod seams;
+mod selftest;
 mod simfile;
 mod smoke;
 
@@ -35,6 +38,31 @@ fn main() {
                 println!("c19      {:40} {:22} types={:?}", c.name, c.krate, c.types);
             }
         }
+        "check" => {
+            let prop = args.get(1).map(|s| s.as_str()).unwrap_or("");
+            let tier = args.get(2).cloned().or_else(|| std::env::var("VERIF_TIER").ok()).unwrap_or_else(|| "quick".into());
+            let seed = report::seed_from_env();
+            println!("linfa-sim check {prop} tier={tier} VERIF_SEED={seed}");
+            let code = match prop {
+                "C01" => c01::check(&tier, seed),
+                _ => usage(),
+            };
+            std::process::exit(code)
+        }
+        "replay" => {
+            let path = args.get(1).unwrap_or_else(|| usage());
+            let text = std::fs::read_to_string(path).unwrap_or_else(|e| report::harness_error(&format!("read {path}: {e}")));
+            let v: serde_json::Value = serde_json::from_str(&text).unwrap_or_else(|e| report::harness_error(&format!("parse {path}: {e}")));
+            let code = match v["property"].as_str().unwrap_or("") {
+                "C01" => c01::replay(&v),
+                other => report::harness_error(&format!("unknown property in replay file: {other}")),
+            };
+            if code == 1 {
+                println!("VIOLATION property={} replay={path}", v["property"].as_str().unwrap_or(""));
+            }
+            std::process::exit(code)
+        }
+        "selftest" => std::process::exit(selftest::run()),
         "smoke" => smoke::run(args.get(1).map(|s| s.as_str()).unwrap_or("")),
         _ => usage(),
     }
